@@ -48,6 +48,7 @@ class ItemSpec:
         self.order = []
         self.region = None
         self.d4 = []          # [("subst", a, b) | ("delete", text)]
+        self.contract_of = None   # use_contract: name of the unit where this fn's contract is proved
 
 
 class FnSpec:
@@ -67,8 +68,8 @@ def parse_sidecar(path):
     for ln, raw in enumerate(open(path).read().split("\n"), 1):
         line = raw.rstrip()
         s = line.strip()
-        is_directive = (s.startswith("@") or s.startswith("item ") or s.startswith("use_item ") or s.startswith("region ")
-                        or s in ("keep_attrs", "selfmut", "literals") or s.startswith("subst ") or s.startswith("delete ")
+        is_directive = (s.startswith("@") or s.startswith("item ") or s.startswith("use_item ") or s.startswith("use_contract ") or s.startswith("region ")
+                        or s in ("keep_attrs", "selfmut", "literals") or s.startswith("subst ") or s.startswith("delete ") or s.startswith("replace ")
                         or re.match(r"(fn|result|refpat) \w+$", s) is not None)
         if cur_site is not None and not is_directive:
             cur_site.append(raw)
@@ -105,6 +106,21 @@ def parse_sidecar(path):
                 raise Undecided("%s:%d: use_item: %d matches" % (path, ln, len(hits)))
             spec["items"].append(hits[0])
             cur_item = cur_fn = cur_site = None
+        elif s.startswith("use_contract "):
+            # modular reuse: the fn's signature and contract (@attr is dropped, @sig / result kept) from another
+            # sidecar, body replaced by unimplemented!() under external_body -- the body is proved against exactly
+            # this contract text in that other unit (bin/check makes sure that unit runs for the same property)
+            import copy as _copy
+            other, _, ipath = s[13:].partition("::")
+            osp = parse_sidecar(os.path.join(os.path.dirname(path), other.strip()))
+            hits = [it for it in osp["items"] if it.path == ipath.strip()]
+            if len(hits) != 1:
+                raise Undecided("%s:%d: use_contract: %d matches" % (path, ln, len(hits)))
+            it_ = _copy.deepcopy(hits[0])
+            it_.contract_of = osp["unit"]
+            spec["items"].append(it_)
+            spec.setdefault("contract_units", []).append(osp["unit"])
+            cur_item = cur_fn = cur_site = None
         elif s.startswith("region "):
             # region SRC :: ITEM :: first_with "LIT" :: N  -- N consecutive top-level statements of the fn,
             # starting at the first one that contains the literal token; wrapped in the @open / @close text
@@ -126,6 +142,12 @@ def parse_sidecar(path):
         elif s.startswith("subst ") and cur_item is not None and " => " in s:
             a_, _, b_ = s[6:].partition(" => ")
             cur_item.d4.append(("subst", a_.strip(), b_.strip()))
+            cur_site = None
+        elif s.startswith("replace ") and cur_item is not None and " =>> " in s:
+            # S1: the exact token sequence A (must occur exactly once in the item) is replaced by B, a call of a
+            # stand-in with an assumed contract; keyed to the exact tokens, so any edit of A leaves no stand-in (undecided)
+            a_, _, b_ = s[8:].partition(" =>> ")
+            cur_item.d4.append(("replace", a_.strip(), b_.strip()))
             cur_site = None
         elif s.startswith("delete ") and cur_item is not None:
             cur_item.d4.append(("delete", s[7:].strip()))
@@ -169,12 +191,24 @@ def _strip_blank(lines):
     return "\n".join(lines)
 
 
-def instrument_fn(ftext, fspec, ed, base, rules, label):
+def instrument_fn(ftext, fspec, ed, base, rules, label, contract_of=None):
     """record the injections for one fn (text `ftext` located at offset `base` of the item)"""
     an = rsx.FnAnatomy(ftext)
     st = an.st
     sites = dict(fspec.sites)
     used = set()
+    if contract_of is not None:
+        # signature + contract only; the body is cut (kept in the marker) and proved in unit `contract_of`
+        if an.body_open is None:
+            raise Undecided("%s: use_contract on a fn without body" % label)
+        ed.insert(base, "#[verifier::external_body] /* contract proved in unit %s */\n" % contract_of)
+        if fspec.result:
+            ed.insert(base + st[an.ret_start].start, "(" + fspec.result + ": ")
+            ed.insert(base + st[an.ret_end - 1].end, ")")
+        if "sig" in sites:
+            ed.insert(base + an.sig_end_off, "\n" + _strip_blank(sites["sig"]) + "\n")
+        ed.replace(base + st[an.body_open].start, base + st[an.body_close].end, "UC", "{ unimplemented!() }")
+        return an
 
     def take(key):
         used.add(key)
@@ -454,6 +488,7 @@ class Generated:
 
 def build_unit(spec, repo=REPO):
     g = Generated()
+    rsx.FMT_LITS.clear()
     cdir = os.path.join(VERIF, "contracts")
     parts = ["".join(a + "\n" for a in spec["crate_attrs"]) + "use vstd::prelude::*;\nverus! {\n"]
     for p in spec["preamble"]:
@@ -545,20 +580,37 @@ def build_unit(spec, repo=REPO):
         ed = rsx.Edits(itext)
         label = "%s :: %s" % (it.src, it.path)
         try:
-            rsx.apply_rules(itext, spec["rules"], ed, regex_map=spec.get("regex_map"))
+            if it.contract_of is not None:
+                # rewrite rules only up to the (first) fn body: the body is cut
+                cut_ = itext.index("{", itext.index("fn ")) if item.kind == "fn" else None
+                if cut_ is None:
+                    raise Undecided("%s: use_contract supports fn items and single methods only" % label)
+                an0_ = rsx.FnAnatomy(itext)
+                cut_ = an0_.st[an0_.body_open].start
+                rsx.apply_rules(itext[:cut_], [r_ for r_ in spec["rules"] if r_ in ("D1",)], ed, regex_map=spec.get("regex_map"))
+            else:
+                rsx.apply_rules(itext, spec["rules"], ed, regex_map=spec.get("regex_map"))
         except rsx.LexError as e:
             raise Undecided("%s: %s" % (label, e))
         # D4 (future = its output): identifier substitutions and deletions named in the sidecar for this item
         if it.d4:
             toks_ = rsx.sig_tokens(rsx.lex(itext))
             gone_ = []
-            for d in sorted(it.d4, key=lambda d_: d_[0] != "delete"):
+            for d in sorted(it.d4, key=lambda d_: d_[0] == "subst"):
                 if d[0] == "subst":
                     hits_ = [t_ for t_ in toks_ if rsx.is_id(t_, d[1]) and not any(a_ <= t_.start < b_ for a_, b_ in gone_)]
                     if not hits_:
                         raise Undecided("%s: D4 subst %s: identifier not found" % (label, d[1]))
                     for t_ in hits_:
                         ed.replace(t_.start, t_.end, "D4", d[2])
+                elif d[0] == "replace":
+                    want_ = [t_.text for t_ in rsx.sig_tokens(rsx.lex(d[1]))]
+                    hits_ = [i_ for i_ in range(len(toks_) - len(want_) + 1) if [t_.text for t_ in toks_[i_:i_ + len(want_)]] == want_]
+                    if len(hits_) != 1:
+                        raise Undecided("%s: S1 replace `%s`: found %d times (the statement changed? no stand-in for the new text)" % (label, d[1], len(hits_)))
+                    i_ = hits_[0]
+                    ed.replace(toks_[i_].start, toks_[i_ + len(want_) - 1].end, "S1", d[2])
+                    gone_.append((toks_[i_].start, toks_[i_ + len(want_) - 1].end))
                 else:
                     want_ = [t_.text for t_ in rsx.sig_tokens(rsx.lex(d[1]))]
                     found_ = False
@@ -573,7 +625,7 @@ def build_unit(spec, repo=REPO):
         try:
             if item.kind == "fn":
                 fs = it.fns.get("") or FnSpec()
-                instrument_fn(itext, fs, ed, 0, spec["rules"], label)
+                instrument_fn(itext, fs, ed, 0, spec["rules"], label, contract_of=it.contract_of)
             elif item.kind == "impl":
                 for fname, fs in it.fns.items():
                     subs = [c for c in item.children if c.kind == "fn" and c.name == fname]
@@ -643,6 +695,14 @@ def build_unit(spec, repo=REPO):
             if n != int(f[3]):
                 raise Undecided("syntactic side condition of an assumed contract no longer holds: %s (found %d)" % (chk, n))
         g.dropped.append("checked: " + chk)
+    if rsx.FMT_LITS:
+        # rule R9: the literal pieces of format strings as opaque named constants (generated from the literal tokens)
+        have_ = "".join(parts)
+        defs_ = []
+        for hx, bs in sorted(rsx.FMT_LITS.items()):
+            if ("fn vlit_%s()" % hx) not in have_:
+                defs_.append("#[verifier::opaque] pub open spec fn vlit_%s() -> Seq<u8> { seq![%s] }   // %r" % (hx, ", ".join("%du8" % b for b in bs), bs))
+        parts.append("// ---- generated: format-string literal pieces (rule R9)\n" + "\n".join(defs_) + "\n\n")
     for p in spec["postamble"]:
         parts.append("// ---- postamble %s\n" % p)
         parts.append(open(os.path.join(cdir, p)).read())
